@@ -54,6 +54,11 @@ func VxC11FileWrite() {
 	level := vx.Choose("level", 0, 1)
 	data := vxLTXBytes(2, 2+ltx.TXID(level), 2, 1700000001000, []uint32{1}, 7)
 	final := c.LTXFilePath(level, 2, 2+ltx.TXID(level))
+	// the name may exist already (a forced snapshot, a compaction re-run after a
+	// restart, an upload retried after its directory flush failed)
+	if vx.Fault("nameExists") {
+		vx.FSWriteFile(final, vxLTXBytes(2, 2+ltx.TXID(level), 2, 1700000000000, []uint32{1}, 3))
+	}
 	vx.FSFaults(true)
 	info, err := c.WriteLTXFile(context.Background(), level, 2, 2+ltx.TXID(level), bytes.NewReader(data))
 	vx.FSFaults(false)
@@ -61,7 +66,7 @@ func VxC11FileWrite() {
 	if !vxTraceHas("FAIL unlink") {
 		vx.Assert("temp-file-never-survives", !vx.FSExists(final+".tmp"))
 	}
-	if vx.FSExists(final) {
+	if vx.FSExists(final) && err == nil {
 		vx.Assert("visible-file-is-complete", vx.FSComplete(final) && bytes.Equal(vx.FSReadFile(final), data))
 	}
 	if err != nil {
